@@ -7,8 +7,10 @@ import (
 	"github.com/karagenc/socket.io-go/adapter"
 	"io"
 	"net/http"
+	"runtime"
 	"strings"
 	"sync"
+	"syscall"
 	"testing"
 	"testing/synctest"
 	"time"
@@ -20,9 +22,9 @@ import (
 func TestLifecycle(t *testing.T) {
 	component(t, func(h *H) {
 		lifecycleCauses(t, h)
-		lifecycleCuts(t, h)
 		lifecycleTwoNamespaces(t, h)
 		lifecycleConnectDuringClose(t, h)
+		lifecycleCuts(t, h) // last: a stalled bubble (see stallWatch) ends the component
 	})
 }
 
@@ -61,10 +63,12 @@ func (r *rig) probeSid(sid string) int {
 }
 
 var allowedReasons = map[string][]sio.Reason{
-	"clientClose":           {sio.ReasonTransportClose, sio.ReasonTransportError},
-	"tcpCut":                {sio.ReasonTransportClose, sio.ReasonTransportError, sio.ReasonPingTimeout},
-	"blackhole":             {sio.ReasonPingTimeout, sio.ReasonTransportClose, sio.ReasonTransportError},
-	"serverDisconnect":      {sio.ReasonServerNamespaceDisconnect},
+	"clientClose": {sio.ReasonTransportClose, sio.ReasonTransportError},
+	"tcpCut":      {sio.ReasonTransportClose, sio.ReasonTransportError, sio.ReasonPingTimeout},
+	"blackhole":   {sio.ReasonPingTimeout, sio.ReasonTransportClose, sio.ReasonTransportError},
+	// the Go client closes its connection when the server disconnects its only namespace (Manager.destroy): over a fast link that
+	// close can reach the server between Disconnect's two statements (packet sent, then onClose) and is then the cause reported
+	"serverDisconnect":      {sio.ReasonServerNamespaceDisconnect, sio.ReasonTransportClose, sio.ReasonTransportError},
 	"serverDisconnectClose": {sio.ReasonForcedServerClose, sio.ReasonForcedClose, sio.ReasonServerNamespaceDisconnect},
 	// a client that disconnects its only namespace closes the connection too: the close may overtake the DISCONNECT packet
 	"clientDisconnect": {sio.ReasonClientNamespaceDisconnect, sio.ReasonTransportClose, sio.ReasonTransportError},
@@ -379,6 +383,36 @@ func lifecycleCauses(t *testing.T, h *H) {
 	}
 }
 
+var stallAfter = 2 * time.Minute
+
+// stallWatch runs outside the bubble, in real time. net.Pipe has no buffer: when both peers answer each other's WebSocket close frame
+// at the same instant, each write waits for a reader that is itself the writer. Over TCP neither write blocks, and in real time
+// nhooyr's 5 s limit on the closing handshake would end it; inside a bubble that timer never fires once a second closer queues on the
+// transport's sync.Once, because the bubble's clock stands still while a goroutine waits on a mutex. A bubble found in exactly that
+// state is an artefact of the rig, not a behaviour of the library: the component ends there with what it has (noted in the
+// evidence). Any other stall is left to the time limit and reported as a broken run.
+func stallWatch(done chan struct{}, h *H, desc string, after time.Duration) {
+	select {
+	case <-done:
+		return
+	case <-time.After(after):
+	}
+	buf := make([]byte, 32<<20)
+	dump := string(buf[:runtime.Stack(buf, true)])
+	n := 0
+	for _, g := range strings.Split(dump, "\n\n") {
+		if strings.Contains(g, "net.(*pipe).write") && strings.Contains(g, "nhooyr.io/websocket.(*Conn).writeClose") {
+			n++
+		}
+	}
+	if n < 2 {
+		return
+	}
+	h.Note("rig limitation (unbuffered in-memory pipe, simultaneous WebSocket close frames, stalled bubble clock): " + desc + " abandoned, the scenarios after it were not run")
+	h.close()
+	syscall.Exit(0)
+}
+
 // the TCP stream of a scripted session is cut after every k-th byte sent by the client
 func lifecycleCuts(t *testing.T, h *H) {
 	step := 37
@@ -394,7 +428,10 @@ func lifecycleCuts(t *testing.T, h *H) {
 			var cutTime time.Time
 			var reasons []string
 			listedAfter, roomsAfter := 0, 0
+			bubbleDone := make(chan struct{})
+			go stallWatch(bubbleDone, h, fmt.Sprintf("lifecycleCuts %v k=%d", trs, k), stallAfter)
 			synctest.Test(t, func(t *testing.T) {
+				defer close(bubbleDone)
 				r := newRig(&sio.ServerConfig{EIO: eio.ServerConfig{PingInterval: 2 * time.Second, PingTimeout: 2 * time.Second}})
 				var ids []sio.SocketID
 				r.server.OnConnection(func(s sio.ServerSocket) {
@@ -472,7 +509,14 @@ func lifecycleCuts(t *testing.T, h *H) {
 				h.Violation("C06", "a socket is handed to the connection handler after it was disconnected; handlers registered there never run", "the connection ends while a namespace middleware runs", desc)
 			}
 			if listedAfter != 0 || roomsAfter != 0 {
-				h.Violation("C06", "a socket whose connection ended is still listed in its namespace or in a room", desc, fmt.Sprintf("listed=%d with rooms=%d", listedAfter, roomsAfter))
+				det := fmt.Sprintf("listed=%d with rooms=%d (connected=%d handed over late=%d overtaken by the cut=%d disconnects=%d)", listedAfter, roomsAfter, connected, late, overtaken, disconnects)
+				if late > 0 || overtaken > 0 {
+					// the connection handler ran after, or at the instant of, the close: the Join it does then comes after the close has
+					// emptied the socket's rooms and nothing undoes it - the same asynchronous hand-over as the handlers that never run (D35)
+					h.Violation("C06", "a socket is handed to the connection handler after it was disconnected; handlers registered there never run", "the connection ends while a namespace middleware runs", desc+": "+det)
+				} else {
+					h.Violation("C06", "a socket whose connection ended is still listed in its namespace or in a room", desc, det)
+				}
 			}
 		}
 	}
